@@ -377,3 +377,76 @@ class IndexLabelChangeDetector(ChangeDetector):
         pos = [int(i) for i in self._index_of(X).searchsorted(self.labels_)] if len(self.labels_) else []
         n = len(X)
         return ChangeDetector._format_sparse_output(sorted({c for c in pos if 0 < c < n}))
+
+
+class SecondMomentChangeScore(BaseChangeScore):
+    """A user-defined change score that depends on the *level* of the data, not only on differences: per column,
+    sqrt(n_left n_right / (n_left + n_right)) |mean(x^2 after) - mean(x^2 before)| (a scale / rate change score for
+    positive data such as counts). Shifting the data by a constant changes it."""
+
+    def __init__(self, power=2.0):
+        self.power = power
+        super().__init__()
+
+    @property
+    def min_size(self):
+        return 1
+
+    def _fit(self, X, y=None):
+        Xa = np.asarray(X, dtype=float)
+        Xa = Xa.reshape(-1, 1) if Xa.ndim == 1 else Xa
+        self._sums = np.concatenate((np.zeros((1, Xa.shape[1])), np.cumsum(np.abs(Xa) ** self.power, axis=0)))
+        return self
+
+    def _evaluate(self, cuts):
+        s, k, e = cuts[:, 0], cuts[:, 1], cuts[:, 2]
+        nl, nr = (k - s).astype(float)[:, None], (e - k).astype(float)[:, None]
+        left = (self._sums[k] - self._sums[s]) / nl
+        right = (self._sums[e] - self._sums[k]) / nr
+        return np.sqrt(nl * nr / (nl + nr)) * np.abs(right - left)
+
+
+class SecondMomentLocalScore(BaseLocalAnomalyScore):
+    """Level-dependent user-defined local anomaly score: sqrt(inner length) |mean(x^2 inner) - mean(x^2 surroundings)|."""
+
+    def __init__(self, power=2.0):
+        self.power = power
+        super().__init__()
+
+    @property
+    def min_size(self):
+        return 1
+
+    def _fit(self, X, y=None):
+        Xa = np.asarray(X, dtype=float)
+        Xa = Xa.reshape(-1, 1) if Xa.ndim == 1 else Xa
+        self._sums = np.concatenate((np.zeros((1, Xa.shape[1])), np.cumsum(np.abs(Xa) ** self.power, axis=0)))
+        return self
+
+    def _evaluate(self, cuts):
+        s, a, b, e = cuts[:, 0], cuts[:, 1], cuts[:, 2], cuts[:, 3]
+        ni = (b - a).astype(float)[:, None]
+        ns = ((a - s) + (e - b)).astype(float)[:, None]
+        inner = (self._sums[b] - self._sums[a]) / ni
+        sur = ((self._sums[a] - self._sums[s]) + (self._sums[e] - self._sums[b])) / ns
+        return np.sqrt(ni) * np.abs(inner - sur)
+
+
+class ProfileChangeScore(BaseChangeScore):
+    """score(s, k, e) = profile[k]: a user-defined change score whose value is a given function of the split position
+    (one column). Lets a test prescribe the whole score curve a detector sees."""
+
+    def __init__(self, profile=None):
+        self.profile = profile
+        super().__init__()
+
+    @property
+    def min_size(self):
+        return 1
+
+    def _fit(self, X, y=None):
+        self._p = np.asarray(self.profile, dtype=float)
+        return self
+
+    def _evaluate(self, cuts):
+        return self._p[cuts[:, 1]].reshape(-1, 1)
